@@ -1283,6 +1283,8 @@ def run(ctx):
     if os.path.exists(os.path.join(vlib.COQ, "Model", "C17_sde.v")):
         import c17_sde
         c17_sde.correspondence(ctx, rng, dist)
+        if os.path.exists(os.path.join(vlib.COQ, "Model", "C17_sys.v")):
+            c17_sde.correspondence_sys(ctx, rng, dist)
 
     # ---------------- round trips on real solvers (the property itself)
     combos = [(True, m) for m in ALL_SME] + [(False, m) for m in ALL_SSE]
